@@ -269,9 +269,35 @@ def trees(leaves, depth, rng, budget):
                 count += 1
 
 
+def check_recalibrated_unit():
+    """Sequence scenario: the value of a unit is whatever the SI registry says WHEN the quantity is built.  A unit is collected,
+    then given another scale, then (a second unit object of the same name) another dimension; after each step the contract is
+    checked on expressions of that unit.  None, or the first disagreement."""
+    from sympy.physics.units import Quantity as SymQuantity, meter, second, length, time
+    from sympy.physics.units.systems.si import SI
+    u = SymQuantity("vf_span")
+    steps = [(u, length, 2 * meter, [3 * u, u**2, u + meter]),
+             (u, length, 5 * meter, [3 * u, u**2, u + meter]),
+             (SymQuantity("vf_span"), time, 7 * second, [3 * u, u + second, u * meter])]
+    for k, (unit, dim, scale, exprs) in enumerate(steps):
+        SI.set_quantity_dimension(unit, dim)
+        SI.set_quantity_scale_factor(unit, scale)
+        for e in exprs:
+            why = check_collect_quantity(e)
+            if why:
+                return f"step {k} (unit vf_span := {scale}): {e}: {why}"
+    return None
+
+
 def search_collect_quantity(seed=0, budget=6000, depth=2):
     rng = random.Random(seed)
     n = 0
+    try:
+        why = check_recalibrated_unit()
+    except Exception:  # noqa: BLE001
+        why = None
+    if why:
+        return "scenario:recalibrated-unit", why, 0
     for t in trees(leaves_quantity(), depth, rng, budget):
         n += 1
         try:
@@ -294,6 +320,12 @@ def nth_tree(kind, seed, n, depth=2):
 
 def replay_tree(kind, seed, n):
     """re-generate the n-th tree of the deterministic enumeration and assert the contract on the real function"""
+    if n == 0 and kind == "collect_quantity":
+        why = check_recalibrated_unit()
+        print("scenario: a unit is collected, then re-scaled, then re-registered with another dimension")
+        assert why is None, f"collect_quantity: {why}"
+        print("contract holds in this scenario")
+        return
     t = nth_tree(kind, seed, n)
     why = {"collect_quantity": check_collect_quantity, "collect_expression": check_collect_expression}[kind](t)
     print("input:", t, "| srepr:", sp.srepr(t)[:300])
@@ -989,6 +1021,10 @@ def leaves_expression():
     i2 = Function("I", [x, t], u.current)
     # derivatives whose variable list repeats a variable NON-adjacently (SymPy merges only adjacent repeats), and a second-order one
     symbolic += [sp.Derivative(i2(x, t), x, t, x), sp.Derivative(i2(x, t), (x, 2), t), sp.Derivative(f(t), (t, 2))]
+    # the angle dimension: a base dimension of its own for inference (only the argument gate reads it as dimensionless)
+    from symplyphysics import angle_type
+    ang = Symbol("phi", angle_type)
+    symbolic += [ang, Quantity(2, dimension=angle_type), ang / t]
     return symbolic + [S.Zero, S.One, sp.Integer(2), sp.Integer(-1), sp.Rational(1, 2), sp.Float(2.5), oo, x, t, m, k, f(t), plain,
             Quantity(0), Quantity(0, dimension=u.length), Quantity(2 * u.meter), Quantity(3 * u.second), Quantity(5), u.meter, u.second,
             sp.Derivative(f(t), t), x / t, x * Quantity(2 * u.meter)]
